@@ -44,6 +44,10 @@ def run(ctx):
     gauges = 0
     if not ctx.replay:
         procs = [pipeline(ctx, "g%d" % w, "c01", [6, w, 1]) for w in (1, 2, 3)]
+        # ... and after stops that catch the workers elsewhere than idle: paused, busy, blocked on a full channel
+        moments = ["paused", "hook:post.take:2", "hold:post.take:2", "hold:arch.take:2"] if quick else \
+                  ["paused", "diskpaused", "midfetch", "hook:post.take:2", "hold:post.take:2", "hold:arch.take:2", "hold:pre.take:2", "hold:fin.finish:1", "hook:arch.item.response:3"]
+        procs += [pipeline(ctx, "s%d" % i, "c03", [2 + i % 2, 1, 0, 0, 1, 0, m]) for i, m in enumerate(moments)]
         for p, t, d in procs:
             try:
                 p.communicate(timeout=600)
